@@ -697,3 +697,142 @@ Example sawtooth_weights_orig_refuted :
   weights_okb point pts (snd (sawtoothInterpolation point ubQ pts vals)) = true /\
   fst (sawtoothInterpolation point ubQ pts vals) == 5#8.
 Proof. vm_compute. repeat split. Qed.
+
+(* ---------------------------------------------------------------- LPInterpolation: value *)
+Lemma qsum_filter : forall (f : nat -> bool) (h : nat -> Q) l,
+  qsum (map h (filter f l)) == qsum (map (fun s => if f s then h s else 0) l).
+Proof.
+  intros f h. induction l as [|s l IH]; cbn [filter map qsum]; [lra|].
+  destruct (f s); cbn [map qsum]; rewrite IH; lra.
+Qed.
+Lemma qsum_swap : forall (B : Type) (F : nat -> B -> Q) (L : list nat) (K : list B),
+  qsum (map (fun s => qsum (map (fun k => F s k) K)) L) == qsum (map (fun k => qsum (map (fun s => F s k) L)) K).
+Proof.
+  intros B F. induction L as [|s L IH]; intros K; cbn [map qsum].
+  - symmetry. apply qsum_map_zero. intros; reflexivity.
+  - rewrite IH. rewrite <- qsum_map_add. apply qsum_map_ext. intros k _. cbn [map qsum]. lra.
+Qed.
+Lemma qsum_scale_r : forall (B : Type) (h : B -> Q) a K, qsum (map (fun k => h k * a) K) == qsum (map h K) * a.
+Proof. intros B h a. induction K as [|k K IH]; cbn [map qsum]; [lra| rewrite IH; lra]. Qed.
+Lemma dot_map_seq : forall cv (g : nat -> Q),
+  dot (map g (seq 0 (length cv))) cv == qsum (map (fun s => g s * nthq cv s) (seq 0 (length cv))).
+Proof.
+  induction cv as [|y cv IH]; intros g; cbn [length]; [reflexivity|].
+  rewrite <- cons_seq, <- seq_shift. cbn [map dot qsum]. rewrite !map_map. rewrite IH.
+  unfold nthq at 1. cbn [nth]. apply Qplus_comp; [reflexivity|].
+  apply qsum_map_ext. intros s _. unfold nthq. cbn [nth]. reflexivity.
+Qed.
+Lemma vec_as_map : forall v : vec, v = map (nthq v) (seq 0 (length v)).
+Proof.
+  induction v as [|x v IH]; [reflexivity|]. cbn [length]. rewrite <- cons_seq, <- seq_shift. cbn [map].
+  rewrite map_map. unfold nthq at 1. cbn [nth]. f_equal. exact IH.
+Qed.
+
+Section LPIValue.
+  Variables (point : vec) (pts : list vec) (vals cv : vec).
+  Hypothesis Hwf : interp_wf point pts vals.
+  Hypothesis Hcv : length cv = length point.
+  Let compat := compatiblePoints point pts.
+
+  Lemma lpi_raw_value : forall c, lpi_feas point pts c ->
+    dot (lpi_coef point cv pts vals compat) c + dot point cv ==
+    weighted_value (lpi_raw point pts compat c) cv vals.
+  Proof.
+    intros c [Hc [Hlc _]]. fold compat in Hlc.
+    destruct (compat_props point pts vals Hwf) as [Hnd [Hlt _]]. fold compat in Hnd, Hlt.
+    destruct Hwf as [Hp [Hsz [Hlv _]]].
+    set (z := fun s => isZero (nthq point s)).
+    set (K := combine compat c).
+    set (Tsk := fun (s : nat) (k : nat * Q) => if z s then 0 else nthq (nth (fst k) pts []) s * snd k * nthq cv s).
+    (* the four sums *)
+    assert (EA : dot (lpi_corner_raw point pts compat c) cv ==
+                 qsum (map (fun s => (if z s then 0 else nthq point s * nthq cv s) - qsum (map (Tsk s) K)) (seq 0 (length cv)))).
+    { unfold lpi_corner_raw. rewrite <- Hcv. rewrite dot_map_seq. apply qsum_map_ext. intros s _.
+      fold (z s). fold K. destruct (z s) eqn:Ez.
+      - rewrite (qsum_map_zero _ (Tsk s)) by (intros k _; unfold Tsk; rewrite Ez; reflexivity). lra.
+      - assert (ET : qsum (map (Tsk s) K) == qsum (map (fun k : nat * Q => nthq (nth (fst k) pts []) s * snd k) K) * nthq cv s).
+        { rewrite <- qsum_scale_r. apply qsum_map_ext. intros k _. unfold Tsk. rewrite Ez. reflexivity. }
+        rewrite ET. lra. }
+    assert (EB : dot point cv == qsum (map (fun s => if z s then 0 else nthq point s * nthq cv s) (seq 0 (length cv)))).
+    { rewrite (vec_as_map point) at 1. rewrite <- Hcv. rewrite dot_map_seq. apply qsum_map_ext. intros s _.
+      unfold z. destruct (isZero (nthq point s)) eqn:E; [|reflexivity].
+      rewrite (Forall_nthq sepz point s sepz_0 Hsz E). lra. }
+    assert (EC : dot (scatter (length pts) compat c) vals == qsum (map (fun k : nat * Q => snd k * nthq vals (fst k)) K)).
+    { rewrite dot_as_recon.
+      replace (length pts) with (length (map (fun v : Q => [v]) vals)) by (rewrite map_length; lia).
+      rewrite recon_scatter.
+      - apply qsum_map_ext. intros [i x] Hix. cbn [fst snd]. apply in_combine_l in Hix.
+        rewrite Forall_forall in Hlt. specialize (Hlt i Hix).
+        assert (E : nth i (map (fun v : Q => [v]) vals) [] = [nthq vals i]).
+        { rewrite (nth_indep _ [] ((fun v : Q => [v]) 0)) by (rewrite map_length; lia).
+          rewrite (map_nth (fun v : Q => [v])). reflexivity. }
+        unfold vec in *. rewrite E. unfold nthq at 1. cbn [nth]. reflexivity.
+      - exact Hnd.
+      - rewrite map_length, Hlv. exact Hlt.
+      - exact Hlc. }
+    assert (ED : dot (lpi_coef point cv pts vals compat) c ==
+                 qsum (map (fun k : nat * Q => snd k * nthq vals (fst k) - qsum (map (fun s => Tsk s k) (seq 0 (length cv)))) K)).
+    { unfold lpi_coef. rewrite dot_map_combine by exact Hlc. fold K. apply qsum_map_ext. intros [i x] _. cbn [fst snd].
+      unfold nonZeroStates.
+      pose proof (qsum_filter (fun s => negb (isZero (nthq point s))) (fun s => nthq (nth i pts []) s * nthq cv s) (seq 0 (length point))) as E1.
+      assert (E2 : qsum (map (fun s => Tsk s (i, x)) (seq 0 (length cv))) ==
+                   qsum (map (fun s => if negb (isZero (nthq point s)) then nthq (nth i pts []) s * nthq cv s else 0) (seq 0 (length point))) * x).
+      { rewrite Hcv. rewrite <- qsum_scale_r. apply qsum_map_ext. intros s _. unfold Tsk, z. cbn [fst snd].
+        destruct (isZero (nthq point s)); cbn [negb]; lra. }
+      rewrite E1, E2. lra. }
+    unfold weighted_value, lpi_raw. rewrite dot_app.
+    2:{ unfold lpi_corner_raw. rewrite map_length, seq_length. congruence. }
+    rewrite EA, EC, ED, EB.
+    (* split the differences and swap the double sum *)
+    assert (S1 : forall (f g : nat -> Q) l, qsum (map (fun s => f s - g s) l) == qsum (map f l) - qsum (map g l)).
+    { intros f g l. induction l as [|s l IH]; cbn [map qsum]; [lra| rewrite IH; lra]. }
+    assert (S2 : forall (f g : nat * Q -> Q) l, qsum (map (fun s => f s - g s) l) == qsum (map f l) - qsum (map g l)).
+    { intros f g l. induction l as [|s l IH]; cbn [map qsum]; [lra| rewrite IH; lra]. }
+    rewrite S1, S2. rewrite (qsum_swap _ Tsk (seq 0 (length cv)) K). lra.
+  Qed.
+End LPIValue.
+
+Section LPIValueThm.
+  Variables (point : vec) (pts : list vec) (vals : vec).
+  Hypothesis Hwf : interp_wf point pts vals.
+  Variable lp_min : mat -> vec -> vec -> option vec.
+  Hypothesis Hlp : lp_sound lp_min.
+
+  (* the returned value never exceeds the weighted sum taken with the exact (pre-clean-up) weights;
+     in the LP / single-point branches it is equal to it *)
+  Theorem lpi_value_le_weighted_lemma : forall ubQ v w, ubQ_wf point ubQ ->
+    LPInterpolation lp_min point ubQ pts vals = Some (v, w) ->
+    exists raw, (w = raw \/ w = map cleanup raw) /\ weights_ok point pts raw /\
+                v <= weighted_value raw (cornerVals ubQ) vals.
+  Proof.
+    intros ubQ v w HQ H. unfold LPInterpolation in H.
+    assert (Hcv : length (cornerVals ubQ) = length point) by (rewrite cornerVals_length; apply HQ).
+    destruct (compatiblePoints point pts) as [|i rest] eqn:Ec.
+    - inversion H; subst. exists (point ++ vzero (length pts)). split; [left; reflexivity|].
+      split; [apply weights_ok_corner_only; apply Hwf|].
+      rewrite weighted_corner_only by exact Hcv. apply basicV_le_corner; [apply Hwf| exact HQ].
+    - rewrite <- Ec in *.
+      destruct (lpi_solve lp_min point (cornerVals ubQ) pts vals (compatiblePoints point pts)) as [[c u]|] eqn:Es; [|discriminate].
+      inversion H; subst. exists (lpi_raw point pts (compatiblePoints point pts) c). split; [right; reflexivity|].
+      pose proof (lpi_solve_feas point pts vals Hwf lp_min Hlp _ _ _ Es) as Hf.
+      split; [exact (lpi_raw_weights_ok point pts vals Hwf c Hf)|].
+      rewrite <- (lpi_raw_value point pts vals (cornerVals ubQ) Hwf Hcv c Hf).
+      (* u is the objective coef . c in the LP branch and c0 * (val - comp.cv) in the shortcut *)
+      unfold lpi_solve in Es. destruct (compatiblePoints point pts) as [|i1 [|i2 rest2]] eqn:Ec2.
+      + discriminate Ec.
+      + inversion Es; subst. unfold lpi_coef. cbn [map dot].
+        (* comp . cv restricted to the non-zero states equals the full dot product *)
+        assert (E : dot (nth i1 pts []) (cornerVals ubQ) ==
+                    qsum (map (fun s => nthq (nth i1 pts []) s * nthq (cornerVals ubQ) s) (nonZeroStates point))).
+        { destruct (compat_props point pts vals Hwf) as [_ [Hlt Hz]]. rewrite Ec2 in Hlt, Hz.
+          inversion Hlt as [|? ? Hi1 _]; subst.
+          destruct Hwf as [_ [_ [_ Hp]]]. rewrite Forall_forall in Hp.
+          destruct (Hp (nth i1 pts []) (nth_In _ _ Hi1)) as [Hlb _].
+          rewrite (vec_as_map (nth i1 pts [])) at 1. rewrite Hlb, <- Hcv. rewrite dot_map_seq.
+          unfold nonZeroStates. rewrite qsum_filter. rewrite Hcv. apply qsum_map_ext. intros s Hs. apply in_seq in Hs.
+          destruct (isZero (nthq point s)) eqn:Ez; cbn [negb]; [|reflexivity].
+          rewrite (Hz i1 s (or_introl eq_refl)) by (lia || exact Ez). lra. }
+        rewrite E. apply Qle_lteq. right. ring.
+      + destruct (lp_min _ _ _) as [c0|]; [|discriminate]. inversion Es; subst. apply Qle_refl.
+  Qed.
+End LPIValueThm.
